@@ -8,6 +8,20 @@ From TG.Proofs Require Import ScopeBalance ScopeFrame.
 Import ListNotations.
 Open Scope N_scope.
 
+(** statements without `include` (at any depth) *)
+Fixpoint noinc (x : stmt) : bool :=
+  let stmts := fix go (l : list stmt) : bool := match l with [] => true | y :: r => noinc y && go r end in
+  match x with
+  | SInclude _ _ => false
+  | SDefset _ _ b | SForeach _ _ b | SLet _ b | SMulticlass _ _ _ b => stmts b
+  | SIf _ th el => stmts th && match el with Some b => stmts b | None => true end
+  | _ => true
+  end.
+Definition noincs (l : list stmt) : bool := forallb noinc l.
+Lemma noinc_local : forall l,
+    (fix go (l : list stmt) : bool := match l with [] => true | y :: r => noinc y && go r end) l = noincs l.
+Proof. induction l as [|y r IH]; [reflexivity|]. simpl. now rewrite IH. Qed.
+
 Section Generic.
   Variable R : st -> st -> Prop.
   Hypothesis Rrefl : forall s, R s s.
@@ -179,6 +193,20 @@ Section Generic.
     intros files n. induction n as [|n IH]; intros x; [simpl; auto with rsp|].
     assert (Hl : forall l, rsp (iterM (index_stmt files n) l)) by (intros; apply r_iterM; intros; apply IH).
     destruct x; simpl; rs; try apply Hl; try (apply r_iterM; intros; rs; apply Hl).
+  Qed.
+
+
+  (** a statement without include never runs the three file operations *)
+  Lemma r_index_stmt_noinc : forall files n x, noinc x = true -> rsp (index_stmt files n x).
+  Proof.
+    intros files n. induction n as [|n IH]; intros x Hx; [simpl; auto with rsp|].
+    assert (Hl : forall l, noincs l = true -> rsp (iterM (index_stmt files n) l)).
+    { intros l Hn. apply r_iterM. intros y Hy. apply IH. unfold noincs in Hn. rewrite forallb_forall in Hn. now apply Hn. }
+    destruct x; simpl in Hx; try discriminate; rewrite ?noinc_local in Hx; simpl; rs; try (now apply Hl).
+    - (* if: then *) apply andb_true_iff in Hx. destruct Hx as [H1 H2]. now apply Hl.
+    - (* if: else *) apply andb_true_iff in Hx. destruct Hx as [H1 H2].
+      apply r_iterM. intros body Hin. destruct el as [b|]; [|destruct Hin].
+      destruct Hin as [<-|[]]. rs.
   Qed.
 
   Lemma r_index_stmts : forall files n l, rsp (iterM (index_stmt files n) l).
